@@ -152,7 +152,7 @@ def build(ts, es, outs, names, ri):
     return c
 
 
-def check_rules_case(acc, ts, es, outs, names, ri, only_flags=None):
+def check_rules_case(acc, ts, es, outs, names, ri, only_flags=None, retype=None):
     import circuitgraph as cg
 
     c = build(ts, es, outs, names, ri)
@@ -183,6 +183,27 @@ def check_rules_case(acc, ts, es, outs, names, ri, only_flags=None):
             case = {"kind": "rules", "types": list(ts), "edges": [list(e) for e in es], "outs": list(outs),
                     "names": list(names), "reg": ri, "flags": [ff, unl, und, sing]}
             acc.violation("rules", bad, case, f"lint -> {got}, documented rules -> {want}")
+    if retype is not None:
+        # lint / edit one node's type in place (node and edge counts unchanged) / lint again with the same flags
+        i, t2 = retype
+        c.graph.nodes[names[i]]["type"] = t2
+        nodes2 = dict(nodes)
+        nodes2[names[i]] = (t2, nodes[names[i]][1])
+        for ff, unl, und, sing in ((False, False, False, False), (True, True, True, True)):
+            want = reference(nodes2, edges, REGS[ri], unl, und, sing)
+            acc.transitions += 1
+            try:
+                cg.lint(c, fail_fast=ff, unloaded=unl, undriven=und, single_input_gates=sing)
+                got = "pass"
+            except ValueError:
+                got = "raise"
+            except Exception as e:  # noqa: BLE001
+                got = "exc:" + common.exc_name(e)
+            if got.startswith("exc:") or (want == "raise" and got == "pass") or (want == "pass" and got == "raise"):
+                case = {"kind": "rules", "types": list(ts), "edges": [list(e) for e in es], "outs": list(outs),
+                        "names": list(names), "reg": ri, "flags": [ff, unl, und, sing], "retype": [i, t2]}
+                acc.violation("rules", "after-edit:" + ("accepts-illformed" if got == "pass" else "rejects-wellformed" if got == "raise" else got),
+                              case, f"lint after retyping {names[i]} to {t2} -> {got}, documented rules -> {want}")
     return nontriv
 
 
@@ -192,7 +213,14 @@ def run_rules(job, acc):
     h = 0
     for _idx, (ts, es, outs, names, ri) in space.chunk(graphs(job["n"], types), job["chunk"], job["of"]):
         acc.states += 1
-        if check_rules_case(acc, ts, es, outs, names, ri):
+        rt = None
+        if h % 8 == 0:
+            plain = [i for i, nm in enumerate(names) if "." not in nm]
+            if plain:
+                i = plain[(h // 8) % len(plain)]
+                alts = [t for t in ("input", "buf", "and", "0") if t != ts[i]]
+                rt = (i, alts[(h // 8) % len(alts)])
+        if check_rules_case(acc, ts, es, outs, names, ri, retype=rt):
             acc.nontrivial += 1
         h += 1
         if h % 5000 == 1:
@@ -505,7 +533,8 @@ def replay(case, job):
     acc = Acc(job)
     if case["kind"] == "rules":
         check_rules_case(acc, tuple(case["types"]), [tuple(e) for e in case["edges"]], tuple(case["outs"]),
-                         tuple(case["names"]), case["reg"], only_flags=[tuple(case["flags"])])
+                         tuple(case["names"]), case["reg"], only_flags=[tuple(case["flags"])],
+                         retype=tuple(case["retype"]) if case.get("retype") else None)
     elif case["kind"] == "outputs":
         fn = dict(producers())[case["producer"]]
         check_output(acc, case["producer"], fn, case["desc"])
